@@ -624,8 +624,10 @@ pub mod sched {
             if hit {
                 let cur = s.current;
                 let p = s.pct.as_mut().unwrap();
-                p.prio[cur] = p.next_low;
-                p.next_low = p.next_low.saturating_sub(1);
+                if cur < p.prio.len() {
+                    p.prio[cur] = p.next_low;
+                    p.next_low = p.next_low.saturating_sub(1);
+                }
             }
             let p = s.pct.as_ref().unwrap();
             *runnable.iter().max_by_key(|i| p.prio[**i]).unwrap()
